@@ -184,7 +184,10 @@ func (ucr *UnsignedChunkReader) extractChunkSize() (int64, error) {
 	if !strings.HasSuffix(line, "\r\n") {
 		return 0, errMalformedEncoding
 	}
-	line = strings.TrimSpace(line)
+	line = strings.TrimSuffix(line, "\r\n")
+	if !isHexDigits(line) {
+		return 0, errMalformedEncoding
+	}
 
 	chunkSize, err := strconv.ParseInt(line, 16, 64)
 	if err != nil {
